@@ -14,7 +14,11 @@ func Resolve(v reflect.Value) reflect.Value {
 	for {
 		switch v.Kind() {
 		case reflect.Interface, reflect.Ptr:
-			if !v.IsNil() {
+			// A function is the pointer it is held by: the object
+			// behind it is not a value of the language (a copy of
+			// it would be a different function, and one that has
+			// lost its methods).
+			if !v.IsNil() && !(v.Kind() == reflect.Ptr && v.Type().Implements(TypeCallable)) {
 				v = v.Elem()
 				break
 			}
